@@ -70,6 +70,12 @@ def template(rng, kind, wide=False):
     elif kind == "big":
         n = int(rng.integers(12, 121 if wide else 41))
         parents = [int(rng.integers(max(0, k - 3), k)) for k in range(1, n)]
+    elif kind == "huge":  # widened classes: a solute of protein size
+        n = int(rng.integers(300, 1501))
+        parents = [int(rng.integers(max(0, k - 3), k)) for k in range(1, n)]
+    elif kind == "polymer":  # one unbranched chain: the bond graph is as deep as it gets
+        n = int(rng.integers(1200, 3001))
+        parents = list(range(n - 1))
     elif kind in ("ring", "fused"):
         m = int(rng.integers(3, 9))
         X = _polygon(rng, m)
@@ -99,7 +105,7 @@ def template(rng, kind, wide=False):
         raise ValueError(kind)
     X = _tree_coords(rng, parents)
     bonds = [(parents[k - 1], k) for k in range(1, n)]
-    return X, bonds, ["C"] * n, ("PRO" if kind == "big" else "LIG")
+    return X, bonds, ["C"] * n, ("PRO" if kind in ("big", "huge") else "LIG")
 
 
 def bfs_order(n, bonds, root, rng=None):
@@ -158,6 +164,14 @@ def system_kinds(rng, system, wide=False):
         return ["ion"] * int(rng.integers(2, 9))
     if system.startswith("exh:"):
         return [system]
+    if system == "large":  # thousands of atoms: 1-2 protein-sized solutes in 800-4000 solvent molecules
+        sol = ["huge"] * int(rng.integers(1, 3))
+        nsolv = int(rng.integers(800, 4001))
+        p = rng.random()
+        solv = [str(x) for x in rng.choice(["water_ohh", "water_hho", "ion"], size=nsolv, p=[p * 0.9, (1 - p) * 0.9, 0.1])]
+        return sol + solv
+    if system == "polymer":
+        return ["polymer"] + [str(rng.choice(["water_ohh", "water_hho", "ion", "chain"])) for _ in range(int(rng.integers(0, 6)))]
     raise ValueError(system)
 
 
@@ -193,17 +207,47 @@ def build(case):
     interleaved = bool(case["relabel"] == "random" and case.get("global_perm") and na > 1)
     residues = []
     chain = None
-    for m, k in enumerate(kinds):
-        if chain is None or ((k == "big" or rng.random() < 0.3) and not interleaved):
-            chain = top.add_chain()
-        # mdtraj keeps the atoms of a residue contiguous; interleaved molecules therefore get one residue per atom
-        residues.append(chain if interleaved else top.add_residue(tmpl[m][3], chain))
-    for i in range(na):
-        s = slot_of_new[i]
-        m = mol_of_slot[s]
-        sym = tmpl[m][2][s - start[m]]
-        res = top.add_residue(tmpl[m][3], residues[m]) if interleaved else residues[m]
-        top.add_atom(sym + str(s - start[m]), elem.get_by_symbol(sym), res)
+    resmode = case.get("resmode", "molecule")
+    if resmode != "molecule" and not interleaved:
+        # widened classes (molecule m owns the index block start[m]..start[m+1]-1 here):
+        #  "split"  a molecule is cut into residues of 1-6 atoms and new chains start at residue boundaries INSIDE
+        #           molecules too (molecule spanning several residues and several chains, like cross-linked peptides)
+        #  "merged" 1-3 consecutive molecules share one residue (several molecules, also bond-free ions, in ONE
+        #           multi-atom residue, like a ligand without bonds)
+        chain = top.add_chain()
+        cur, left, mols_left = None, 0, 0
+        for i in range(na):
+            s = slot_of_new[i]
+            m = mol_of_slot[s]
+            new_mol = bool(i == start[m])
+            if resmode == "split":
+                if left == 0 or new_mol:
+                    if rng.random() < 0.15:
+                        chain = top.add_chain()
+                    cur = top.add_residue(tmpl[m][3], chain)
+                    left = int(rng.integers(1, 7))
+                left -= 1
+            elif new_mol:
+                if mols_left == 0:
+                    if rng.random() < 0.2:
+                        chain = top.add_chain()
+                    cur = top.add_residue(tmpl[m][3], chain)
+                    mols_left = int(rng.integers(1, 4))
+                mols_left -= 1
+            sym = tmpl[m][2][s - start[m]]
+            top.add_atom(sym + str(s - start[m]), elem.get_by_symbol(sym), cur)
+    else:
+        for m, k in enumerate(kinds):
+            if chain is None or ((k == "big" or rng.random() < 0.3) and not interleaved):
+                chain = top.add_chain()
+            # mdtraj keeps the atoms of a residue contiguous; interleaved molecules therefore get one residue per atom
+            residues.append(chain if interleaved else top.add_residue(tmpl[m][3], chain))
+        for i in range(na):
+            s = slot_of_new[i]
+            m = mol_of_slot[s]
+            sym = tmpl[m][2][s - start[m]]
+            res = top.add_residue(tmpl[m][3], residues[m]) if interleaved else residues[m]
+            top.add_atom(sym + str(s - start[m]), elem.get_by_symbol(sym), res)
     atoms = [top.atom(i) for i in range(na)]
     assert [a.index for a in top.atoms] == list(range(na))
     bonds = []
@@ -216,14 +260,48 @@ def build(case):
         if rng.random() < 0.5:
             a, b = b, a
         top.add_bond(atoms[a], atoms[b])
+    ins = [int(k) for k in ins]
+    if case.get("dup_bonds") and bonds:
+        # widened class: some bonds are listed twice (the public add_bond does not deduplicate; files with CONECT
+        # records on top of template bonds give such topologies)
+        for k in rng.choice(len(bonds), size=max(1, len(bonds) // 8), replace=False):
+            a, b = bonds[int(k)]
+            if rng.random() < 0.5:
+                a, b = b, a
+            top.add_bond(atoms[a], atoms[b])
+            ins.append(int(k))
     # what Topology.bonds holds, in its order (documented behaviour of add_bond: lower index first)
     top_bonds = np.array([[min(bonds[k]), max(bonds[k])] for k in ins], dtype=np.int64).reshape(-1, 2)
     mols = [np.sort(new_of[start[m]:start[m + 1]]) for m in range(len(kinds))]
     # cells -----------------------------------------------------------------------------------------------------
-    ncell = nf if case["perframe"] else 1
-    cells = [common.random_cell(rng, case["cell"]) for _ in range(ncell)]
-    if not case["perframe"]:
-        cells = cells * nf
+    pf = case["perframe"]
+    if pf == "one-field":
+        # widened class: ONE of the six cell parameters changes along the trajectory, the other five are constant
+        l0, a0 = common.random_cell(rng, case["cell"])
+        field = int(rng.integers(0, 6))
+        if field >= 3 and abs(float(a0[field - 3]) - 90.0) < 1e-9 and rng.random() < 0.5:
+            field = int(rng.integers(0, 3))  # keep some right angles right
+        cells = []
+        for f in range(nf):
+            l, a = l0.copy(), a0.copy()
+            if field < 3:
+                l[field] = l0[field] * rng.uniform(0.85, 1.2)
+            else:
+                for _ in range(50):
+                    a[field - 3] = a0[field - 3] + rng.uniform(-6, 6)
+                    if common.cell_valid(a, 0.08):
+                        break
+                else:
+                    a = a0.copy()
+            cells.append((l, a))
+    elif pf == "class-change":
+        # widened class: the cell CLASS changes along the trajectory (cubic -> triclinic -> hexagonal ...)
+        cells = [common.random_cell(rng, str(rng.choice(common.CELL_KINDS)) if f else case["cell"]) for f in range(nf)]
+    else:
+        ncell = nf if pf else 1
+        cells = [common.random_cell(rng, case["cell"]) for _ in range(ncell)]
+        if not pf:
+            cells = cells * nf
     L = np.array([c[0] for c in cells], dtype=np.float32)
     A = np.array([c[1] for c in cells], dtype=np.float32)
     times = np.cumsum(rng.uniform(0.5, 3.0, nf)).astype(np.float32)
@@ -235,9 +313,12 @@ def build(case):
     xyz = np.zeros((nf, na, 3))
     whole = np.zeros((nf, na, 3))
     shifts = np.zeros((nf, na, 3), dtype=np.int64)
+    late = int(case.get("late", 0))  # widened class: frames before `late` are left whole and unscattered
     for f in range(nf):
         w = common.cell_widths(B[f])
         Binv = np.linalg.inv(B[f])
+        if scatter == "sparse":  # widened class: only 1-3 atoms of the whole system sit in another image
+            chosen = set(int(x) for x in rng.choice(na, size=min(na, int(rng.integers(1, 4))), replace=False))
         for m, (X0, bl, els, rn) in enumerate(tmpl):
             n = len(X0)
             X = X0 + (rng.normal(scale=0.004, size=X0.shape) if n > 1 else 0.0)
@@ -256,7 +337,15 @@ def build(case):
                 sh = -np.floor(pos @ Binv).astype(np.int64)
             elif scatter == "molecule":
                 sh = np.tile(rng.integers(-K, K + 1, (1, 3)), (n, 1))
+            elif scatter == "sparse":
+                sh = np.zeros((n, 3), dtype=np.int64)
+                for j in range(n):
+                    if int(idx[j]) in chosen:
+                        while not sh[j].any():
+                            sh[j] = rng.integers(-max(K, 1), max(K, 1) + 1, 3)
             else:
+                sh = np.zeros((n, 3), dtype=np.int64)
+            if f < late:
                 sh = np.zeros((n, 3), dtype=np.int64)
             shifts[f, idx] = sh
             xyz[f, idx] = pos + sh @ B[f]
